@@ -519,3 +519,7 @@ PROPS['C07']['suites'] = PROPS['C07']['suites'] + [_INDEP_SUITE]
 PROPS['C07']['rule'] = PROPS['C07']['rule'] + (' || indep suite: for the constructors NewHelo(nil), NewPing, NewPong, NewPackedForwardMessage, '
     'NewCompressedPackedForwardMessage, NewForwardMessage, NewMessage: two values from the same arguments, the first then decoded into / '
     'given a chunk id; the second and a third built afterwards must be unaffected')
+
+# C13 also speaks about UnmarshalPacked (one value per entry, nothing skipped): packed histories contain mutated streams
+PROPS['C13']['suites'] = PROPS['C13']['suites'] + [_PACKED_SUITES[0]]
+PROPS['C13']['rule'] = PROPS['C13']['rule'] + ' || ' + _PACKED_RULE
